@@ -300,3 +300,7 @@ impl<T, const N: usize> std::ops::DerefMut for ArrayPlusOne<T, N> {
         unsafe { std::slice::from_raw_parts_mut(x.cast::<T>(), N + 1) }
     }
 }
+
+#[cfg(kani)]
+#[path = "/verif/kani/arrow-buffer/bigint/div.rs"]
+mod verif_kani;
